@@ -846,3 +846,82 @@ Section Est6.
       destruct (tkey_eq _ _ _ _ Q) as [-> Q']. rewrite (Hd t t' Hin P Q') in *. exact R.
   Qed.
 End Est6.
+
+(* ---- T4: reading back ---- *)
+Lemma read_back_write k v st :
+  fget k (sfiles (write k v st)) = Some v /\
+  forall k', k' <> k -> fget k' (sfiles (write k v st)) = fget k' (sfiles st).
+Proof. cbn. split; [apply fget_fput_same|]. intros k' H. apply fget_fput_other, H. Qed.
+
+Lemma all_some_spec {A} : forall (l : list (option A)) r, all_some l = Some r <-> l = map Some r.
+Proof.
+  induction l as [|[a|] t IH]; intro r; cbn.
+  - split; [intro H; inversion H; reflexivity|]. destruct r; [reflexivity|discriminate].
+  - destruct (all_some t) as [r'|] eqn:E.
+    + split.
+      * intro H. inversion H; subst. cbn. f_equal. apply IH. reflexivity.
+      * destruct r as [|b r]; [discriminate|]. cbn. intro H. inversion H; subst.
+        f_equal. f_equal. assert (Some r' = Some r) as X by (apply IH; reflexivity). congruence.
+    + split; [discriminate|]. destruct r as [|b r]; [discriminate|]. cbn. intro H. inversion H; subst.
+      assert (None = Some r) as X by (apply IH; reflexivity). discriminate.
+  - split; [discriminate|]. destruct r; discriminate.
+Qed.
+
+(* load_predictions returns, for every registered strategy x dataset pair in order, exactly the
+   stored record; it fails iff one of them is not in the store *)
+Lemma load_spec st f it recs :
+  load st f it = Some recs ->
+  map fst recs = list_prod (snames st) (dnames st) /\
+  forall s d c, In (s, d, c) recs -> fget (s, d, f, it) (sfiles st) = Some c.
+Proof.
+  unfold load. intro H. apply all_some_spec in H. revert recs H.
+  induction (list_prod (snames st) (dnames st)) as [|[s d] t IH]; intros recs H.
+  - destruct recs; [cbn; split; [reflexivity|intros ? ? ? []]|discriminate].
+  - destruct recs as [|r recs]; [discriminate|]. cbn [map fst snd] in H.
+    destruct (fget (s, d, f, it) (sfiles st)) as [c|] eqn:E; [|discriminate].
+    inversion H as [[Hr Ht]]. destruct (IH recs Ht) as [A B]. subst r. cbn. split; [f_equal; exact A|].
+    intros s' d' c' [Heq|Hin]; [inversion Heq; subst; exact E|apply B, Hin].
+Qed.
+Lemma load_none st f it :
+  load st f it = None <->
+  exists s d, In s (snames st) /\ In d (dnames st) /\ fget (s, d, f, it) (sfiles st) = None.
+Proof.
+  unfold load. split.
+  - intro H.
+    assert (exists sd, In sd (list_prod (snames st) (dnames st)) /\
+                       fget (fst sd, snd sd, f, it) (sfiles st) = None) as [sd [Hin Hn]].
+    { revert H. induction (list_prod (snames st) (dnames st)) as [|sd t IH]; cbn; [discriminate|].
+      destruct (fget (fst sd, snd sd, f, it) (sfiles st)) eqn:E.
+      - destruct (all_some _) eqn:E2; [discriminate|]. intros _. destruct (IH eq_refl) as [x [A B]].
+        exists x. split; [right; exact A|exact B].
+      - intros _. exists sd. split; [left; reflexivity|exact E]. }
+    destruct sd as [s d]. apply in_prod_iff in Hin. exists s, d. cbn in Hn. tauto.
+  - intros [s [d [Hs [Hd Hn]]]].
+    assert (In (s, d) (list_prod (snames st) (dnames st))) as Hin by (apply in_prod; assumption).
+    revert Hin. induction (list_prod (snames st) (dnames st)) as [|sd t IH]; cbn; [intros []|].
+    intros [->|Hin]; [cbn; rewrite Hn; reflexivity|].
+    destruct (fget (fst sd, snd sd, f, it) (sfiles st)); [|reflexivity]. rewrite (IH Hin). reflexivity.
+Qed.
+
+(* ---- a non-trivial instance: 2 strategies x 1 dataset x 2 folds, all flags on, the 3rd predict
+   call fails ---- *)
+Definition ex_fit (p : Z) (rows : list row) : Z := fold_left (fun s r => s + p * fst r + snd r) rows 0.
+Definition ex_pred (p s x : Z) : Z := (s + p * x) mod 3.
+Definition ex_tasks : list task :=
+  tasks_of [(1, 3); (2, 5)]
+           [{| d_name := 7; d_rows := [(10, 0); (11, 1); (12, 0); (13, 2)]; d_folds := kfold 4 2 |}].
+Definition ex_flags : flags := {| ow_pred := false; on_train := true; save_fit := true; ow_fit := false |}.
+
+Lemma ex_nonvacuous :
+  noow ex_flags /\ legal true ex_flags /\ distinct ex_tasks /\ length ex_tasks = 4%nat /\
+  (exists st1 ev1, run ex_fit ex_pred true ex_flags (Some (false, 3)) ex_tasks empty_store = (st1, ev1, Crash)
+     /\ length (sfiles st1) = 4%nat /\ length (fits_of ev1) = 2%nat) /\
+  (exists st ev, run ex_fit ex_pred true ex_flags None ex_tasks empty_store = (st, ev, Done)
+     /\ length (sfiles st) = 12%nat).
+Proof.
+  split; [split; reflexivity|]. split; [split; intro; [reflexivity|discriminate]|]. split.
+  - intros t t' Ht Ht' Hk. cbn in Ht, Ht'.
+    repeat (destruct Ht as [<-|Ht]; [repeat (destruct Ht' as [<-|Ht']; [first [reflexivity|discriminate Hk]|]); destruct Ht'|]).
+    destruct Ht.
+  - split; [reflexivity|]. split; eexists; eexists; (split; [vm_compute; reflexivity|split; reflexivity]) || (split; [vm_compute; reflexivity|reflexivity]).
+Qed.
